@@ -3,6 +3,7 @@
 
 #[path = "gen/mod.rs"]
 pub mod generate;
+pub mod hang;
 pub mod interp;
 pub mod io;
 pub mod parse;
